@@ -497,7 +497,11 @@ fn reader_run(cx: &mut Cx, first: usize, ops: &[Op], a: &BinArchive, m: &mut Mod
                     if !cx.check(res.is_err(), "out-of-range-access-rejected", || format!("{name}: reading {len} bytes with only {avail} available succeeded")) {
                         return false;
                     }
-                    m.rpos += avail; // the successful u8 reads before the failing one
+                    // a failed slice read either leaves the cursor where it was, or has advanced it over the u8 reads that
+                    // succeeded before the failing one (interpretation 9): both are accepted, nothing else
+                    if r.tell() == m.rpos + avail {
+                        m.rpos += avail;
+                    }
                     cx.label("stream-slice-straddles-the-end");
                 }
             }
@@ -597,7 +601,10 @@ fn writer_run(cx: &mut Cx, first: usize, ops: &[Op], a: &mut BinArchive, m: &mut
                         return false;
                     }
                 }
-                if n > 0 {
+                // success: all bytes written, cursor advanced. Failure: either nothing happened, or the prefix that fitted was
+                // written byte by byte and the cursor advanced over it (interpretation 9) - told apart by the cursor
+                let partial = res.is_ok() || w.tell() == m.wpos + n;
+                if n > 0 && partial {
                     m.data[m.wpos..m.wpos + n].copy_from_slice(&data[..n]);
                     m.wpos += n;
                 }
@@ -731,7 +738,7 @@ impl Prop for C04 {
          stream instance). Addresses and lengths come from a boundary palette: 0..=size+8, size+-8, 2^k+-3 for k in {16,31,32,33,63}, usize::MAX-{0..8}; values: random bits plus planted 0x01020304, quiet/signalling NaN payloads, +-inf, +-0, integer extremes. \
          Oracle (model = Vec<u8> + maps + two cursors): a typed access of width w>=1 at a succeeds iff a+w <= size (computed in u128), otherwise Err, never a panic; a successful write changes exactly [a,a+w) to the value's LE/BE byte layout computed \
          by the harness and the matching read returns the same bits; reads return the LE/BE meaning of the model bytes; annotation accessors never change the bytes and their Ok results equal the model; after EVERY call the whole state \
-         (all bytes, every cell's string/pointer, all labels) and both cursors are compared; stream calls equal the positional call at the cursor and advance it by exactly the width on success and not at all on failure (slice calls = the sequence of u8 accesses); label accessors never move it. \
+         (all bytes, every cell's string/pointer, all labels) and both cursors are compared; stream calls equal the positional call at the cursor and advance it by exactly the width on success and not at all on failure (a failing slice call either changes nothing or has performed the u8 accesses that fitted); label accessors never move it. \
          Bounded-exhaustive tier: every typed accessor (positional and stream) x every size 0..=12 x every palette address x both endiannesses; read_bytes x every palette address x every palette length. \
          Non-trivial: the case contains an access straddling the end, or an address >= 2^31, or a big-endian multi-byte write read back, or >= 3 interleaved stream/positional calls. Distinct = distinct case value."
             .into()
